@@ -467,14 +467,18 @@ def spendPendingClause (db : DB) : Except Err DB :=
 `IsMultiSigSpend`/`IsTaprootMultiSigSpend`, neither) -/
 inductive Witness where
   | expiry | multiSig | unknown
+  /-- a multi-sig spend whose transaction RECREATES the account output (the normal case of a confirmed batch):
+  after the pending-batch clause the handler calls `resumeAccount`, which – in the states an account has after a
+  batch (`StatePendingBatch`, `StatePendingUpdate`, `StateExpired`, `StateExpiredPendingUpdate`) – only registers
+  chain watchers / the auctioneer subscription and writes nothing to the database -/
+  | multiSigRecreate
 deriving DecidableEq, Repr
 
 /-- the final `UpdateAccount(account, StateClosed, HeightHint(spendHeight), LatestTx(spendTx))` -/
 def closeMods (tx h : Nat) : List AMod := [.state acctStateClosed, .heightHint h, .latestTx tx]
 
-/-- `manager.HandleAccountSpend(traderKey, spendDetails)` for a spending transaction that does NOT recreate the
-account output (the recreate branch hands over to `resumeAccount`, i.e. to the chain watcher, and writes nothing
-here).  Three store calls in sequence, not one transaction: `Account`, (multi-sig only) the pending-batch clause
+/-- `manager.HandleAccountSpend(traderKey, spendDetails)`.  For a spending transaction that does not recreate the
+account output the account is closed; the recreate branch (`multiSigRecreate`) hands over to `resumeAccount`.  Three store calls in sequence, not one transaction: `Account`, (multi-sig only) the pending-batch clause
 `PendingBatch` + `MarkBatchComplete` + `Account` under `pendingBatchMtx`, then `UpdateAccount` closing the account. -/
 def handleAccountSpend (k : Key) (w : Witness) (tx h : Nat) (db : DB) : DB × Option Err :=
   match lookup k db.accounts with
@@ -483,6 +487,7 @@ def handleAccountSpend (k : Key) (w : Witness) (tx h : Nat) (db : DB) : DB × Op
     match w with
     | .unknown => (db, some .other)                       -- "unknown spend witness"
     | .expiry => commit db (updateAccountTx k (closeMods tx h) db)
+    | .multiSigRecreate => commit db (spendPendingClause db)
     | .multiSig =>
       match commit db (spendPendingClause db) with
       | (db1, some e) => (db1, some e)
@@ -536,6 +541,25 @@ def checkPendingBatch (src : Except Err Snap) (rpc : Rpc) (env : CleanerEnv) :
 def reconnect (rpc : Rpc) (removeOk : Bool) (db : DB) : DB × List Call × Option CheckErr :=
   let r := checkPendingBatch (pendingBatchSnapshot db) rpc { removeOk := removeOk, deleteOk := true }
   if r.1.contains .deletePendingBatch then ((commit db (deletePendingBatchTx db)).1, r) else (db, r)
+
+/-- the three ways the stream to the auctioneer is (re-)created -/
+inductive Path where
+  | firstConnect     -- daemon start: `connectAndAuthenticate` with `serverStream == nil`
+  | streamError      -- stream error → `rpcServer.serverHandler` → `HandleServerShutdown(err)`
+  | shutdownNotice   -- SERVER_SHUTDOWN message → `readIncomingStream` → `HandleServerShutdown(nil)`
+deriving DecidableEq, Repr
+
+/-- A whole (re-)connection along `p`.  Every function that creates the stream runs `checkPendingBatch` right
+after `connectServerStream` and before (re-)subscribing accounts (`Gen.C06.streamCreators`).  The two in-process
+reconnect paths presuppose an earlier first connect, whose check the scripted auctioneer answers with "not
+finalised".  Result: the database and the outcome of each check, in order. -/
+def reconnectVia (p : Path) (rpc : Rpc) (removeOk : Bool) (db : DB) : DB × List (List Call × Option CheckErr) :=
+  match p with
+  | .firstConnect => let r := reconnect rpc removeOk db; (r.1, [r.2])
+  | _ =>
+    let r0 := reconnect (.rpcErr true) true db
+    let r := reconnect rpc removeOk r0.1
+    (r.1, [r0.2, r.2])
 
 /-! ### operations -/
 
